@@ -663,24 +663,24 @@ def _mutations():
         return f
 
     return [
-        ("M1 validate: try around parse_with_warnings removed", "mcp/validate.py", untry("parse_with_warnings(content)"), "no_escape_validate"),
-        ("M2 write: try around tokenize removed", "mcp/write.py", untry("tokenize(parse_input)"), "no_escape_write"),
-        ("M3 compile_grammar: try around parse removed", "mcp/compile_grammar.py", untry("doc = parse(content)"), "no_escape_compile_grammar"),
+        ("M1 validate: try around parse_with_warnings removed", "mcp/validate.py", untry("parse_with_warnings(content)"), "validate_only_escape_is_path_exists"),
+        ("M2 write: try around tokenize removed", "mcp/write.py", untry("tokenize(parse_input)"), "escapes_are_the_known_ones"),
+        ("M3 compile_grammar: try around parse removed", "mcp/compile_grammar.py", untry("doc = parse(content)"), "escapes_are_the_known_ones"),
         ("M4 eject: json.dumps wrapped in try (defect fixed)", "mcp/eject.py",
          rep("            output = json.dumps(data, indent=2, ensure_ascii=False)\n",
              "            try:\n                output = json.dumps(data, indent=2, ensure_ascii=False)\n"
-             "            except TypeError:\n                output = ''\n"), "no_escape_eject_refuted"),
+             "            except TypeError:\n                output = ''\n"), "escapes_are_the_known_ones"),
         ("M5 validate: a return without status", "mcp/validate.py",
          rep("        if content is None and file_path is None:\n",
              "        if content == 'x':\n            return {'canonical': content}\n        if content is None and file_path is None:\n"),
          "envelopes_have_status"),
         ("M6 validate: new unclassified call outside any try", "mcp/validate.py",
          rep("        schema_def = get_builtin_schema(schema_name)\n",
-             "        schema_def = get_builtin_schema(schema_name)\n        frobnicate(doc)\n"), "no_escape_validate"),
+             "        schema_def = get_builtin_schema(schema_name)\n        frobnicate(doc)\n"), "validate_only_escape_is_path_exists"),
         ("M7 write: handler of the lenient parse narrowed to ValueError", "mcp/write.py",
          rep("                    corrections.extend(self._map_parse_warnings_to_corrections(parse_warnings))\n                except Exception as e:",
              "                    corrections.extend(self._map_parse_warnings_to_corrections(parse_warnings))\n                except ValueError as e:"),
-         "no_escape_write"),
+         "escapes_are_the_known_ones"),
         ("P1 parser: advance() dropped from the NEWLINE branch of parse_document", "core/parser.py",
          rep("            if self.current().type == TokenType.NEWLINE:\n                self.advance()\n                continue\n\n            # Parse section (assignment or block) with pending comments",
              "            if self.current().type == TokenType.NEWLINE:\n                continue\n\n            # Parse section (assignment or block) with pending comments"),
@@ -734,9 +734,17 @@ def selftest(verbose=True):
             # copies of the obligation files, re-pointed at the mutated Gen files
             for name in ("ExnFlowPinsParser", "ExnFlowLoopsObl", "ExnFlow"):
                 txt = (th / "Tools" / f"{name}.v").read_text()
-                txt = txt.replace("Gen.ParserLoopsGen", "T.ParserLoopsGen").replace("Gen.ExnFlowGen", "T.ExnFlowGen") \
-                         .replace("Tools.ExnFlowPinsParser", "T.ExnFlowPinsParser").replace("From OV Require Import", "From OV Require Import")
-                txt = txt.replace("From OV Require Import Gen.ParserLoopsGen.", "From T Require Import ParserLoopsGen.")
+                extra = []
+                for lib in ("Gen.ParserLoopsGen", "Gen.ExnFlowGen", "Tools.ExnFlowPinsParser"):
+                    if lib in txt:
+                        txt = txt.replace(" " + lib, "")
+                        extra.append(f"From T Require Import {lib.split('.')[1]}.")
+                txt = txt.replace("From OV Require Import.", "")
+                # insert the re-pointed imports after the last `Require Import` line of the header
+                lines = txt.split("\n")
+                last = max(i for i, ln in enumerate(lines[:40]) if "Require Import" in ln or ln.startswith("  Tools."))
+                lines[last + 1:last + 1] = extra
+                txt = "\n".join(lines)
                 (t / f"{name}.v").write_text(txt)
             got = "all obligations still hold"
             detail = ""
